@@ -142,6 +142,9 @@ def gen_panel(r, g, n_geos, n_dates, cls='continuous', id_style='str', origin=No
     vals = vals * unit
   if date_style == 'iso':
     dates = [d.isoformat() for d in days]
+  elif date_style == 'dmy':
+    # text labels in day/month/year order: plain labels for the library (ordered as text, not chronologically)
+    dates = [d.strftime('%d/%m/%Y') for d in days]
   elif date_style == 'tz':
     dates = [pd.Timestamp(d, tz='US/Eastern') for d in days]
   elif date_style == 'timeofday':
